@@ -83,6 +83,15 @@ int MPI_Iallreduce(const void *sendbuf, void *recvbuf, int count, MPI_Datatype d
                    MPI_Request *request);
 int MPI_Exscan(const void *sendbuf, void *recvbuf, int count, MPI_Datatype dt, MPI_Op op, MPI_Comm comm);
 int MPI_Scan(const void *sendbuf, void *recvbuf, int count, MPI_Datatype dt, MPI_Op op, MPI_Comm comm);
+int MPI_Reduce(const void *sendbuf, void *recvbuf, int count, MPI_Datatype dt, MPI_Op op, int root, MPI_Comm comm);
+int MPI_Wait(MPI_Request *req, MPI_Status *status);
+int MPI_Waitall(int count, MPI_Request reqs[], MPI_Status statuses[]);
+int MPI_Waitany(int count, MPI_Request reqs[], int *index, MPI_Status *status);
+int MPI_Testall(int count, MPI_Request reqs[], int *flag, MPI_Status statuses[]);
+int MPI_Testany(int count, MPI_Request reqs[], int *index, int *flag, MPI_Status *status);
+int MPI_Testsome(int incount, MPI_Request reqs[], int *outcount, int indices[], MPI_Status statuses[]);
+int MPI_Ssend(const void *buf, int count, MPI_Datatype dt, int dest, int tag, MPI_Comm comm);
+int MPI_Finalized(int *flag);
 int MPI_Bcast(void *buffer, int count, MPI_Datatype dt, int root, MPI_Comm comm);
 int MPI_Allgather(const void *sendbuf, int sendcount, MPI_Datatype sendtype, void *recvbuf, int recvcount,
                   MPI_Datatype recvtype, MPI_Comm comm);
